@@ -77,6 +77,9 @@ func verifyFunction(P *Program, db *ContractDB, fn *ssa.Function, c *Contract, v
 		return
 	}
 	defer sol.Close()
+	if vo.cexHook == nil {
+		vo.cexHook = globalCexHook
+	}
 	e := &Exec{P: P, sol: sol, db: db, top: fn, topC: c, obligs: map[string]*Oblig{}, onceLv: []map[*Term]bool{{}}, inlined: map[string]bool{}, usedExt: map[string]bool{}, usedCtr: map[string]bool{}, loops: map[*ssa.Function]*LoopInfo{}, cexHook: vo.cexHook}
 	e.curTags = c.Tags
 	e.safeTags = c.SafeTags
@@ -88,6 +91,7 @@ func verifyFunction(P *Program, db *ContractDB, fn *ssa.Function, c *Contract, v
 	}
 	if shape != nil {
 		e.shape = shape.Name
+		e.shapeObj = shape
 	}
 	defer func() {
 		if r := recover(); r != nil {
@@ -312,3 +316,5 @@ func (e *Exec) allocAtEntry(fr *Frame, x *Term) *Term {
 }
 
 func (e *Exec) applySpawn(st *State, fr *Frame, c *Contract, ctx *SpecCtx) {}
+
+var globalCexHook func(e *Exec, st *State, o *Oblig) *Cex
